@@ -30,6 +30,10 @@ type watchEv struct {
 	file  int
 	valid bool
 	names []string
+	// the file is removed (names empty); again: the file is written with exactly the bytes of its
+	// last version (valid and names are that version's)
+	remove bool
+	again  bool
 }
 
 func nsState(nm namespace.Manager) string {
@@ -95,6 +99,19 @@ func streamWatch(t *testing.T, o *Out) {
 			runWatchCase(t, o, fmt.Sprintf("wreload-%s-%d", kind, salt), kind, evs, 0, 0, true, salt)
 		}
 	}
+	// a file that is removed and comes back: with the bytes it had (mv away and back, unlink + create
+	// by a deploy tool), and after an invalid version
+	for _, kind := range []string{"o", "l"} {
+		a0 := watchEv{file: 0, valid: true, names: []string{"A0"}}
+		a0again := a0
+		a0again.again = true
+		bad := watchEv{file: 0, valid: false}
+		badAgain := bad
+		badAgain.again = true
+		rm := watchEv{file: 0, remove: true}
+		runWatchCase(t, o, "wremove-"+kind+"-0", kind, []watchEv{a0, rm, a0again}, 0, 0, false, 0)
+		runWatchCase(t, o, "wremove-"+kind+"-1", kind, []watchEv{a0, bad, rm, badAgain, a0, rm, a0again, rm}, 0, 1, false, 1)
+	}
 	for i := 0; i < n; i++ {
 		kind := "o"
 		if i%2 == 1 {
@@ -106,10 +123,36 @@ func streamWatch(t *testing.T, o *Out) {
 		}
 		nev := 3 + r.Intn(4)
 		var evs []watchEv
+		last := map[int]*watchEv{} // the version each existing file holds
+		firstRemove := -1
 		for j := 0; j < nev; j++ {
 			e := watchEv{file: r.Intn(nfiles), valid: r.Intn(3) != 0}
 			if j < nfiles && r.Intn(2) == 0 {
 				e.file = j
+			}
+			// every fourth case: files are removed, and come back (half of the time with the bytes they had)
+			if i%4 == 1 || i%4 == 2 {
+				var present []int
+				for f := range last {
+					present = append(present, f)
+				}
+				sort.Ints(present)
+				if len(present) > 0 && r.Intn(4) == 0 {
+					f := present[r.Intn(len(present))]
+					prev := *last[f]
+					delete(last, f)
+					if firstRemove < 0 {
+						firstRemove = len(evs)
+					}
+					evs = append(evs, watchEv{file: f, remove: true})
+					if r.Intn(2) == 0 {
+						prev.again = true
+						evs = append(evs, prev)
+						pp := prev
+						last[f] = &pp
+					}
+					continue
+				}
 			}
 			if e.valid {
 				k := 1
@@ -123,10 +166,16 @@ func streamWatch(t *testing.T, o *Out) {
 				e.names = dedup(e.names)
 			}
 			evs = append(evs, e)
+			ec := e
+			last[e.file] = &ec
 		}
 		npre := 0
-		if r.Intn(2) == 0 {
+		if r.Intn(2) == 0 && len(evs) > 1 {
 			npre = 1 + r.Intn(len(evs)-1)
+		}
+		if firstRemove >= 0 && npre > firstRemove {
+			// removals happen under the watcher's eyes
+			npre = firstRemove
 		}
 		// every third case: the configuration comes from a keto.yml that is itself hot-reloaded
 		// (an unrelated key changes) between the versions of the namespace files
@@ -285,10 +334,15 @@ func runWatchCase(t *testing.T, o *Out, id, kind string, evs []watchEv, extIdx i
 		start()
 	}
 	exts := []string{".json", ".yaml", ".toml"}
+	lastContent := map[int]string{}
 	var payload strings.Builder
 	fmt.Fprintf(&payload, "%s %d %d", kind, npre, len(evs))
 	for ei, e := range evs {
-		fmt.Fprintf(&payload, " %d %d %d", e.file, b2i(e.valid), len(e.names))
+		vtok := b2i(e.valid)
+		if e.remove {
+			vtok = 2
+		}
+		fmt.Fprintf(&payload, " %d %d %d", e.file, vtok, len(e.names))
 		for _, nme := range e.names {
 			payload.WriteString(" " + S(nme))
 		}
@@ -342,8 +396,21 @@ func runWatchCase(t *testing.T, o *Out, id, kind string, evs []watchEv, extIdx i
 				}
 			}
 		}
-		if err := writeAtomic(dir, fname, []byte(content)); err != nil {
-			t.Fatal(err)
+		switch {
+		case e.remove:
+			if err := os.Remove(filepath.Join(dir, fname)); err != nil {
+				t.Fatal(err)
+			}
+			o.Count("file-removed")
+		default:
+			if e.again {
+				content = lastContent[e.file]
+				o.Count("file-rewritten-with-identical-content")
+			}
+			lastContent[e.file] = content
+			if err := writeAtomic(dir, fname, []byte(content)); err != nil {
+				t.Fatal(err)
+			}
 		}
 		if ei < npre {
 			if ei == npre-1 {
